@@ -120,6 +120,7 @@ def parse (qr : List Nat) (cap : Nat) : Except Err Qr := do
   | none =>
     if bytes.length < TOTAL_BYTES then .error .invalidData else do
     let version ← readBits bytes 0 VERSION_BITS
+    if version ≠ 0 then .error .invalidData else do  -- not a v1 payload (fix C17-qr-version-accepted)
     let vid ← readBits bytes 3 VID_BITS
     let pid ← readBits bytes 19 PID_BITS
     let flow ← readBits bytes 35 FLOW_BITS
